@@ -16,8 +16,8 @@ RULE = ("Random OCP specifications with random positive scale= values (scalar an
         "coordinates: objective equal; for every declared constraint the multiset of slacks of A equals that of B "
         "divided by its declared scale (bounds included, slacks are bound-aware); every system row of A is a positive "
         "constant multiple of the same row of B across all points (same feasible set, without prescribing which scale "
-        "rockit picks); (iii) the start point read back in physical units is identical; (iv) the reference model "
-        "evaluated in physical units matches A's objective and declared constraints.  non-trivial = at least one scale "
+        "rockit picks; DirectCollocation: the collocation residual of state element e is divided by e's set_der scale); (iii) the start point read back in physical units is identical; (iv) the reference model "
+        "evaluated in physical units matches A's objective and declared constraints.  Sub-family 'hoc': control(order=1|2, scale=scalar|element-wise) written against the API directly x MS/SS/DC: (i)-(iii) for the higher-order control.  non-trivial = at least one scale "
         "different from 1 on a quantity that appears in a compared row; distinct = configuration signature x kinds of "
         "scaled objects.")
 ASSUMPTIONS = ["read-backs are affine in the solver variables (verified per case; SingleShooting uses x(t0), controls and "
@@ -66,6 +66,9 @@ def gen_cases(rng, tier):
                 guesses.append({"target": s["name"], "kind": "const", "val": ocpgen.rnd(rng, -2, 2)})
         spec["initial"] = guesses
         cases.append({"spec": spec, "K": 4 if tier == "quick" else 6, "seed": rng.getrandbits(32)})
+    from . import c14_hoc
+    for i in range(30 if tier == "quick" else 500):
+        cases.append(c14_hoc.gen(rng, ocpgen))
     return cases
 
 
@@ -115,6 +118,9 @@ def run_case(case):
     import casadi as ca
     from . import engine
     from ..obs import nlp, transport, coords
+    if case.get("kind") == "hoc":
+        from . import c14_hoc
+        return c14_hoc.run(case, ID)
     spec = case["spec"]
     sig = C.config_sig(spec, scaled_kinds(spec))
     res = {"sig": sig, "evals": 0, "violations": [],
@@ -262,6 +268,44 @@ def run_case(case):
                     "kind": "system-row-scale", "mech": "C14|system-row-not-a-positive-multiple",
                     "detail": "system row %d (%s): slack ratio scaled/unscaled over the points = %s" % (
                         r, obsA.view.row_site[r], C.short(arr))})
+                break
+    # (ii-b) DirectCollocation: the collocation residual of state element e is divided by e's set_der(scale=)
+    if not res["violations"] and cls == "DC" and ratios:
+        start_col = {}          # column of w -> (state name, element index) for interval start nodes
+        for s_ in spec["states"]:
+            nm = "xi:" + s_["name"]
+            if nm not in obsA.rb.names:
+                continue
+            e_ = obsA.rb.exprs[obsA.rb.names.index(nm)]
+            J = ca.jacobian(ca.vec(e_), obsA.view.x).sparsity()
+            nel = s_["shape"][0] * s_["shape"][1]
+            colind, rowi = J.colind(), J.row()
+            for c_ in range(J.size2()):
+                for kk in range(colind[c_], colind[c_ + 1]):
+                    start_col[c_] = (s_["name"], rowi[kk] % nel)
+        dscale = {}
+        for s_ in spec["states"]:
+            ds = s_.get("der_scale")
+            n_, m_ = s_["shape"]
+            arr = np.ones(n_ * m_) if ds is None else (np.ones(n_ * m_) * ds if isinstance(ds, (int, float)) else
+                                                      np.array(ds, dtype=float).reshape(n_, m_).reshape(-1, order="F"))
+            dscale[s_["name"]] = arr
+        for (r, side), lst in ratios.items():
+            hits = [start_col[c_] for c_ in patA[r] if c_ in start_col]
+            if len(hits) != 1:
+                continue            # continuity rows touch two start nodes, algebraic rows none
+            name, el = hits[0]
+            arr = np.array(lst)
+            if not np.all(np.isfinite(arr)):
+                continue
+            want = 1.0 / dscale[name][el]
+            res["counters"]["der_scale_rows"] = res["counters"].get("der_scale_rows", 0) + 1
+            res["evals"] += 1
+            if np.max(np.abs(arr - want)) > 1e-6 * want:
+                res["violations"].append({
+                    "kind": "der-scale", "mech": "C14|collocation-row-not-divided-by-its-derivative-scale",
+                    "detail": "row %d (collocation residual of %s element %d): scaled/unscaled = %s, declared "
+                              "set_der scale %g" % (r, name, el, C.short(arr[:3]), dscale[name][el])})
                 break
     # (iv) reference in physical units (objective + declared constraints + dynamics with rockit's row scales)
     if not res["violations"]:
